@@ -192,6 +192,9 @@ theorem pf_findTF : ∀ w, pfTree nG w = true → findTF w = .none := by
 theorem pf_identOk {w : W} (h : pfTree nG w = true) : identOk nG w = true := by
   cases w <;> simp_all [identOk, pfTree, isPF]
 
+theorem pf_isOp {w : W} (h : pfTree nG w = true) : w.isOperation = true := by
+  cases w <;> simp_all [W.isOperation, pfTree, isPF]
+
 theorem pf_validate : ∀ w, pfTree nG w = true → validate nG w = true := by
   apply pfTree_induction
   · intro w h
@@ -199,7 +202,7 @@ theorem pf_validate : ∀ w, pfTree nG w = true → validate nG w = true := by
     | cmp op i c hi hop => cases op <;> simp_all [validate, allowedOp, identOk, allowedCol, isCmp]
     | inn i vs hi => simp [validate, allowedOp, identOk, allowedCol, hi]
     | btw i a b hi => simp [validate, identOk, allowedCol, hi]
-  · intro l r h1 h2 hl hr; simp [validate, allowedOp, pf_identOk h1, pf_identOk h2, hl, hr]
+  · intro l r h1 h2 hl hr; simp [validate, allowedOp, pf_identOk h1, pf_identOk h2, pf_isOp h1, pf_isOp h2, hl, hr]
 
 theorem pf_replaceTF (new : W) : ∀ w, pfTree nG w = true → replaceTF tc.toW new w = w := by
   apply pfTree_induction
@@ -270,13 +273,16 @@ theorem tc_findTF : ∀ w, tcTree nG tc.toW w = true → findTF w = .one tc.toW 
 theorem tc_identOk {w : W} (h : tcTree nG tc.toW w = true) : identOk nG w = true := by
   cases w <;> first | rfl | (cases tc <;> simp_all [tcTree, TC.toW])
 
+theorem tc_isOp {w : W} (h : tcTree nG tc.toW w = true) : w.isOperation = true := by
+  cases w <;> first | rfl | (cases tc <;> simp_all [tcTree, TC.toW])
+
 theorem tc_validate : ∀ w, tcTree nG tc.toW w = true → validate nG w = true := by
   apply tcTree_induction
   · cases tc <;> simp [validate, TC.toW, allowedOp, identOk, allowedCol]
   · intro l r h1 h2 hl
-    simp [validate, allowedOp, tc_identOk tc h1, pf_identOk h2, hl, pf_validate r h2]
+    simp [validate, allowedOp, tc_identOk tc h1, pf_identOk h2, tc_isOp tc h1, pf_isOp h2, hl, pf_validate r h2]
   · intro l r h1 h2 hr
-    simp [validate, allowedOp, tc_identOk tc h2, pf_identOk h1, hr, pf_validate l h1]
+    simp [validate, allowedOp, tc_identOk tc h2, pf_identOk h1, tc_isOp tc h2, pf_isOp h1, hr, pf_validate l h1]
 
 theorem restSel_leaf (p : List Int) (r : Row) : restSel p tc.toW tc.toW r = true := by
   unfold restSel
@@ -507,8 +513,11 @@ theorem validate_nonop (nG : Nat) {w : W} (h : w.isOperation = false) : validate
 theorem identOk_bin (nG : Nat) (op : Op) (l r : W) : identOk nG (.bin op l r) = true := rfl
 theorem identOk_btw (nG : Nat) (x a b : W) : identOk nG (.btw x a b) = true := rfl
 
+theorem andOk_nonop {w : W} (h : w.isOperation = false) : andOk w = true := by
+  cases w <;> simp_all [W.isOperation, andOk]
+
 theorem validate_spec (nG : Nat) : ∀ w, visible w = true →
-    (validate nG w && identOk nG w) = (opsOk w && colsOk nG w) := by
+    (validate nG w && identOk nG w) = (opsOk w && colsOk nG w && andOk w) := by
   intro w
   induction w with
   | bin op l r ihl ihr =>
@@ -516,9 +525,11 @@ theorem validate_spec (nG : Nat) : ∀ w, visible w = true →
     simp only [visible, Bool.and_eq_true] at hv
     have e1 := ihl hv.1
     have e2 := ihr hv.2
-    simp only [validate, identOk_bin, opsOk, colsOk, Bool.and_true]
-    have : (allowedOp op && opsOk l && opsOk r && (colsOk nG l && colsOk nG r))
-        = (allowedOp op && ((opsOk l && colsOk nG l) && (opsOk r && colsOk nG r))) := by ac_rfl
+    simp only [validate, identOk_bin, opsOk, colsOk, andOk, Bool.and_true]
+    generalize (op != Op.and || (l.isOperation && r.isOperation)) = k
+    have : (allowedOp op && opsOk l && opsOk r && (colsOk nG l && colsOk nG r) && (k && andOk l && andOk r))
+        = (allowedOp op && k && ((opsOk l && colsOk nG l && andOk l) && (opsOk r && colsOk nG r && andOk r))) := by
+      ac_rfl
     rw [this, ← e1, ← e2]; ac_rfl
   | btw x a b ihx iha ihb =>
     intro hv
@@ -527,35 +538,35 @@ theorem validate_spec (nG : Nat) : ∀ w, visible w = true →
     have e2 := iha hv.1.1.2
     have e3 := ihb hv.1.2
     rw [validate_nonop nG hv.2, Bool.true_and] at e3
-    simp only [validate, identOk_btw, opsOk, colsOk, Bool.and_true]
-    have : (opsOk x && opsOk a && opsOk b && (colsOk nG x && colsOk nG a && colsOk nG b))
-        = ((opsOk x && colsOk nG x) && (opsOk a && colsOk nG a) && (opsOk b && colsOk nG b)) := by ac_rfl
+    simp only [validate, identOk_btw, opsOk, colsOk, andOk, Bool.and_true]
+    have : (opsOk x && opsOk a && opsOk b && (colsOk nG x && colsOk nG a && colsOk nG b) && (andOk x && andOk a && andOk b))
+        = ((opsOk x && colsOk nG x && andOk x) && (opsOk a && colsOk nG a && andOk a)
+            && (opsOk b && colsOk nG b && andOk b)) := by ac_rfl
     rw [this, ← e1, ← e2, ← e3]; ac_rfl
   | un x _ => intro _; simp [validate, opsOk]
-  | «opaque» f => intro hv; simp_all [visible, validate, identOk, opsOk, colsOk]
-  | _ => intro _; simp [validate, identOk, opsOk, colsOk]
+  | «opaque» f => intro hv; simp_all [visible, validate, identOk, opsOk, colsOk, andOk]
+  | _ => intro _; simp [validate, identOk, opsOk, colsOk, andOk]
 
 theorem identOk_op (nG : Nat) {w : W} (h : w.isOperation = true) : identOk nG w = true := by
   cases w <;> simp_all [W.isOperation, identOk]
 
 theorem findTF_no_crash (nG : Nat) : ∀ w, w.isOperation = true → validate nG w = true →
-    andOperandsOps w = true → findTF w ≠ .crash := by
+    findTF w ≠ .crash := by
   intro w
   induction w with
   | bin op l r ihl ihr =>
-    intro _ hv ha
+    intro _ hv
     by_cases hop : op = .and
     · subst hop
-      simp only [andOperandsOps, Bool.and_eq_true] at ha
-      simp only [validate, Bool.and_eq_true] at hv
-      have h1 := ihl ha.1.1.1 hv.1.2 ha.1.2
-      have h2 := ihr ha.1.1.2 hv.2 ha.2
+      simp only [validate, Bool.and_eq_true, Bool.or_eq_true, bne_self_eq_false, Bool.false_eq_true, false_or] at hv
+      have h1 := ihl hv.1.1.1.1.2.1 hv.1.2
+      have h2 := ihr hv.1.1.1.1.2.2 hv.2
       simp only [findTF]
       cases hl : findTF l <;> cases hr : findTF r <;> simp_all [FT.merge]
     · have : findTF (.bin op l r) = if isTimeIdent l || isTimeIdent r then .one (.bin op l r) else .none := by
         cases op <;> first | rfl | exact absurd rfl hop
       rw [this]; split <;> simp
-  | btw x a b _ _ _ => intro _ _ _; simp only [findTF]; split <;> simp
+  | btw x a b _ _ _ => intro _ _; simp only [findTF]; split <;> simp
   | un x _ => intro _ hv; simp [validate] at hv
   | _ => intro h; simp [W.isOperation] at h
 
